@@ -65,7 +65,17 @@ def run(ctx: Ctx) -> None:
             continue
         g = CFG(f.node)
         kw_nodes = {n.id for n in g.nodes if _reads_keywords(n)}
-        from_entry = g.reachable(g.entry, blocked=lambda n: n.id in kw_nodes)
+
+        def not_a_call_edge(n, lab) -> bool:
+            # the false edge of `if isinstance(x, ast.Call)` cannot lead to an arm that matches a Call: the keyword test may
+            # sit inside that `if` (`if isinstance(e, ast.Call): kws = e.keywords; if kws: raise …`)
+            if lab != "F" or n.kind != "test":
+                return False
+            t = getattr(n.ast, "test", n.ast)
+            return isinstance(t, ast.Call) and isinstance(t.func, ast.Name) and t.func.id == "isinstance" and len(t.args) == 2 \
+                and ast.unparse(t.args[1]) in ("ast.Call", "Call")
+
+        from_entry = g.reachable(g.entry, blocked=lambda n: n.id in kw_nodes, edge_blocked=not_a_call_edge)
         for form, body in accepting:
             n_sites += 1
             if not body:
